@@ -152,7 +152,7 @@ Proof. exact fd_front. Qed.
 Print Assumptions c01_front_end.
 
 (** 6. the repository's own transmitter m17-mod (model ImplMod.v, tied to SpecM17 by C13): the frame send_lsf emits
-       for any valid callsigns and CAN decodes to the 30 bytes send_lsf returns; the frame send_audio_frame emits
+       for any valid callsigns and CAN decodes to the 30 bytes send_lsf returns and puts the decoder into stream mode; the frame send_audio_frame emits
        for LICH chunk n, any uint16 frame-number argument and any 16-byte payload decodes to that frame number and
        payload.  ([uninit] = content of the uninitialised arrays handed to puncture().) *)
 Theorem c01_rt_lsf_m17mod :
@@ -162,7 +162,7 @@ Theorem c01_rt_lsf_m17mod :
   exists (L : list N) (f : list bool),
     send_lsf uninit can src dest AUDIO = (L, [OutFrame SpecM17.sync_lsf f]) /\
     exists c : Z, (Forall (fun x => x = 7) m -> c = 0) /\
-      fd_observe (fd_step s SLsf (soft m f) r) = (update_state MLsf (bytes_bits L), ROk, Some c, [mkcb FLsf L c]) /\
+      fd_observe (fd_step s SLsf (soft m f) r) = (MStream, ROk, Some c, [mkcb FLsf L c]) /\
       fd_lsf (fd_st_of (fd_step s SLsf (soft m f) r)) = L.
 Proof. exact rt_lsf_m17mod. Qed.
 Print Assumptions c01_rt_lsf_m17mod.
